@@ -102,6 +102,11 @@ class _Ufunc:
             raise AnalysisError(f'np.{self.name} with keyword arguments has no model')
         return getattr(as_arr(a), f'__{self.op}__')(b) if not isinstance(a, (int, float, complex)) or isinstance(b, Arr) else getattr(a, f'__{self.op}__')(b)
 
+    def outer(self, a, b):
+        if self.op != 'mul':
+            raise AnalysisError(f'np.{self.name}.outer has no model')
+        return tensordot_outer(a, b)
+
     def at(self, a, indices, b=None):
         if not isinstance(a, Arr) or b is None:
             raise AnalysisError(f'np.{self.name}.at in this form has no model')
@@ -111,6 +116,11 @@ class _Ufunc:
             raise AnalysisError(f'np.{self.name}.at with these index operands has no model')
         A.point_store(a, idx, vecs, b, self.op)
         return None
+
+
+def tensordot_outer(a, b):
+    """np.multiply.outer(a, b) = np.tensordot(a, b, axes=0)"""
+    return A.tensordot(as_arr(a), as_arr(b), 0)
 
 
 class FakeNumpy:
@@ -226,7 +236,11 @@ class FakeNumpy:
     @staticmethod
     def reciprocal(a):
         a = as_arr(a)
-        return Arr(a.shape, a.legs, a.dt, None, {'reciprocal_of': a, 'prov': a.tags.get('prov')}, 'reciprocal')
+        t = {'reciprocal_of': a, 'prov': a.tags.get('prov')}
+        md = a.tags.get('mx')
+        if md is not None and len(md) == 1 and md[0][0] in ('S', 'Sinv'):
+            t['mx'] = ((('Sinv' if md[0][0] == 'S' else 'S'), md[0][1], '', md[0][3]),)
+        return Arr(a.shape, a.legs, a.dt, None, t, 'reciprocal')
 
     @staticmethod
     def exp(a):
@@ -256,6 +270,8 @@ class FakeNumpy:
             if v.tags.get('const') == 'unitvec' and isinstance(v.tags.get('unit_index'), int):
                 from .opalg import ketbra
                 t['opalg'] = ketbra(v.tags['unit_index'], v.tags['unit_index'])
+            if 'mx' in v.tags:
+                t['mx'] = v.tags['mx']
             return Arr([n, n], [v.legs[0], v.legs[0]], v.dt, None, t, 'diag')
         if v.ndim == 2:
             n = sz_min(ctx().atoms, v.shape[0], v.shape[1])
@@ -611,6 +627,12 @@ def svd(a, full_matrices=True, overwrite_a=False, check_finite=True, lapack_driv
         um = Arr([m, kk], [a.legs[0], bl], a.dt, None, {'prov': {'svd': uid, 'role': 'u', 'of': a}, 'orth': 'LO'}, 'svd.u')
         vm = Arr([kk, n], [bl, a.legs[1]], a.dt, None, {'prov': {'svd': uid, 'role': 'v', 'of': a}, 'orth': 'RO'}, 'svd.v')
     sv = Arr([kk], [bl], 'real', None, {'prov': {'svd': uid, 'role': 's', 'of': a}}, 'svd.s')
+    from . import mx as _mx
+    _mx.reg()[uid] = _mx.of(a)
+    if not full_matrices:
+        um.tags['mx'] = (('U', uid, '', None),)
+        vm.tags['mx'] = (('V', uid, '', None),)
+        sv.tags['mx'] = (('S', uid, '', None),)
     A.CTX.event('svd', array=a, uid=uid, u=um, s=sv, v=vm, full=full_matrices)
     return [um, sv, vm]
 
@@ -627,6 +649,10 @@ def qr(a, overwrite_a=False, mode='full', check_finite=True, **k):
         bl = () if is_one(kk) else (bond_leg(kk),)
         q = Arr([m, kk], [a.legs[0], bl], a.dt, None, {'prov': {'qr': uid, 'role': 'q', 'of': a}, 'orth': 'LO'}, 'qr.q')
         r = Arr([kk, n], [bl, a.legs[1]], a.dt, None, {'prov': {'qr': uid, 'role': 'r', 'of': a}}, 'qr.r')
+        from . import mx as _mx
+        _mx.reg()[uid] = _mx.of(a)
+        q.tags['mx'] = (('Q', uid, '', None),)
+        r.tags['mx'] = (('R', uid, '', None),)
     elif mode == 'full':
         bl = _leg(m, 'qr-full')
         q = Arr([m, m], [a.legs[0], bl], a.dt, None, {'prov': {'qr': uid, 'role': 'q', 'of': a}, 'orth': 'LO'}, 'qr.q')
@@ -650,6 +676,10 @@ def rq(a, overwrite_a=False, mode='full', check_finite=True, **k):
     bl = () if is_one(kk) else (bond_leg(kk),)
     r = Arr([m, kk], [a.legs[0], bl], a.dt, None, {'prov': {'rq': uid, 'role': 'r', 'of': a}}, 'rq.r')
     q = Arr([kk, n], [bl, a.legs[1]], a.dt, None, {'prov': {'rq': uid, 'role': 'q', 'of': a}, 'orth': 'RO'}, 'rq.q')
+    from . import mx as _mx
+    _mx.reg()[uid] = _mx.of(a)
+    r.tags['mx'] = (('Rr', uid, '', None),)
+    q.tags['mx'] = (('Qr', uid, '', None),)
     A.CTX.event('rq', array=a, uid=uid, q=q, r=r)
     return (r, q)
 
